@@ -170,6 +170,9 @@ type OblResult struct {
 	Status string // discharged, failed(sat), undecided, cover-ok, cover-vacuous, cover-unknown, known
 }
 
+// quickUnlocked: when non-nil, the set of locked obligation names (others get a short timeout)
+var quickUnlocked map[string]bool
+
 func runObls(obls []*Obl, workdir string, timeoutS, seed int, agree bool, par int) []*OblResult {
 	res := make([]*OblResult, len(obls))
 	var wg sync.WaitGroup
@@ -184,6 +187,8 @@ func runObls(obls []*Obl, workdir string, timeoutS, seed int, agree bool, par in
 			to := timeoutS
 			if o.Cover {
 				to = min(timeoutS, 5)
+			} else if quickUnlocked != nil && !quickUnlocked[o.Name] {
+				to = min(timeoutS, 8) // not locked: attempted, never a violation
 			}
 			r := solve(workdir, o.Name, q, to, seed, agree && !o.Cover)
 			or := &OblResult{O: o, R: r}
